@@ -86,10 +86,15 @@ structure St where
   stage : DTables := {}
   objs : List (String × Obj) := []
   tms : List (String × TM) := []
+  /-- named `std::vector<std::vector<double>>` targets of `getHiddenStatesPosteriorProbabilities(probs, append)` -/
+  bufs : List (String × List (List Float)) := []
 
 def St.get? (s : St) (k : String) : Option Obj := (s.objs.find? (·.1 == k)).map (·.2)
 def St.put (s : St) (k : String) (o : Obj) : St := { s with objs := (k, o) :: s.objs.filter (·.1 != k) }
 def St.del (s : St) (k : String) : St := { s with objs := s.objs.filter (·.1 != k) }
+
+def St.getBuf (s : St) (k : String) : List (List Float) := ((s.bufs.find? (·.1 == k)).map (·.2)).getD []
+def St.putBuf (s : St) (k : String) (b : List (List Float)) : St := { s with bufs := (k, b) :: s.bufs.filter (·.1 != k) }
 
 def St.getTM? (s : St) (k : String) : Option TM := (s.tms.find? (·.1 == k)).map (·.2)
 def St.putTM (s : St) (k : String) (m : TM) : St := { s with tms := (k, m) :: s.tms.filter (·.1 != k) }
@@ -102,8 +107,18 @@ def implFloats? (l : List String) : Option (List Float) := if l == ["-"] then so
 
 def showAns : Ans Float → String
   | .exc => "exc:bpp"
+  | .ub => "ub"
   | .val x => hx x
   | .mat m => hxs m.flatten
+
+/-- rows separated by `;` (the rows of a target vector may have different lengths) -/
+def showRows (m : List (List Float)) : String :=
+  if m.isEmpty then "-" else " ; ".intercalate (m.map (fun r => " ".intercalate (r.map hx)))
+def showAnsRows : Ans Float → String
+  | .mat m => showRows m
+  | a => showAns a
+def implRows? (l : List String) : Option (List (List Float)) :=
+  if l == ["-"] then some [] else (splitTok ";" l).mapM (fun r => r.mapM implFloat?)
 
 /-! ## exact reference -/
 
@@ -197,9 +212,7 @@ def specOf (o : Obj) (op : Op Float) : Ans Float :=
   match o.core with
   | .resc r => rescSpec t r.bps op
   | .log g => logSpec t g.bps op
-  | .low l => match op with
-    | .posterior | .d1 _ | .d2 _ => .exc
-    | _ => .val (lowCompute t l.maxSize l.bps)
+  | .low l => lowSpec t l.maxSize l.bps op
 
 def both (a b : String) : String := if a.startsWith "FAIL" then a else if b.startsWith "FAIL" then b else if a == "-" then b else a
 
@@ -223,18 +236,9 @@ def sumsToOne (ll : Float) (r : List Float) : Bool :=
   !s.isNaN && Float.abs (s - 1.0) ≤ sumTol ll
 
 /-- posterior rows answered by the implementation -/
-def postVerdict (o : Obj) (impl : Option (List String)) (rows : Option (List Nat)) : String :=
-  match impl with
-  | none => "-"
-  | some ans =>
-    if isExc ans || o.stale then "-" else
-    match implFloats? ans with
-    | none => "FAIL:parse"
-    | some xs =>
+def postJudge (o : Obj) (m : List (List Float)) (rows : Option (List Nat)) : String :=
       let t := o.tab
-      let n := t.n
-      if xs.length % n != 0 then "FAIL:parse" else
-      let m := (List.range (xs.length / n)).map (fun i => (xs.drop (i * n)).take n)
+      if o.stale then "-" else
       if !t.nonneg then "-" else
       if !validBreaks t.T o.bps then
         -- outside the theorem's domain (recorded finding C13-invalid-breaks): setBreakPoints does not validate
@@ -263,6 +267,34 @@ def postVerdict (o : Obj) (impl : Option (List String)) (rows : Option (List Nat
         if m.all (fun r => r.all (fun x => x ≥ 0.0) && sumsToOne o.logLik r) then "ok"
         else if m.any (fun r => r.any Float.isNaN) then "-"   -- likelihood underflowed to 0: posterior undefined
         else "FAIL:posterior_prob"
+
+def postVerdict (o : Obj) (impl : Option (List String)) (rows : Option (List Nat)) : String :=
+  match impl with
+  | none => "-"
+  | some ans =>
+    if isExc ans || o.stale then "-" else
+    match implFloats? ans with
+    | none => "FAIL:parse"
+    | some xs =>
+      let n := o.tab.n
+      if xs.length % n != 0 then "FAIL:parse" else
+      postJudge o ((List.range (xs.length / n)).map (fun i => (xs.drop (i * n)).take n)) rows
+
+/-- `getHiddenStatesPosteriorProbabilities(probs, append)`: the rows that were in `probs` are kept
+(`append`) or dropped, and the last `T` rows are the posterior matrix -/
+def postIntoVerdict (o : Obj) (impl : Option (List String)) (buf : List (List Float)) (append : Bool) : String :=
+  match impl with
+  | none => "-"
+  | some ans =>
+    if isExc ans || o.stale then "-" else
+    match implRows? ans with
+    | none => "FAIL:parse"
+    | some m =>
+      let keep := if append then buf else []
+      if m.length != keep.length + o.tab.T then "FAIL:append_layout"
+      else if showRows (m.take keep.length) != showRows keep then "FAIL:append_preserves"
+      else if !((m.drop keep.length).all (fun r => r.length == o.tab.n)) then "FAIL:append_layout"
+      else postJudge o (m.drop keep.length) none
 
 /-- per-site likelihoods answered by the implementation: `Σ_j posterior_i(j)·e_i(j)` of the exact marginals -/
 def siteVerdict (o : Obj) (impl : Option (List String)) (rows : Option (List Nat)) : String :=
@@ -559,6 +591,15 @@ def step (s : St) (op : List String) (impl : Option (List String)) : St × Strin
     match s.get? a with
     | none => (s, "no-object", "-")
     | some o => (s.put b o, hx o.logLik, llVerdict o impl)
+  | ["assign", a, b] =>
+    -- `*b = *a` (operator= of the likelihood class; both objects must be of the same class)
+    match s.get? a, s.get? b with
+    | some oa, some ob =>
+      let same := match oa.core, ob.core with
+        | .resc _, .resc _ | .low _, .low _ | .log _, .log _ => true
+        | _, _ => false
+      if !same then (s, "class-mismatch", "-") else (s.put b oa, hx oa.logLik, llVerdict oa impl)
+    | _, _ => (s, "no-object", "-")
   | "agree" :: ks =>
     let os := ks.map s.get?
     let out := " ".intercalate (os.map (fun o => match o with | some o => hx o.logLik | none => "none"))
@@ -591,48 +632,42 @@ def step (s : St) (op : List String) (impl : Option (List String)) : St × Strin
       | "post", [] =>
         let (o1, a) := runOp o .posterior
         (s.put k o1, showAns a, both (postVerdict o impl none) (match impl with | some i => if isExc i then "-" else histCheck o i (specOf o .posterior) | none => "-"))
+      | "postb", [b, app] =>
+        -- getHiddenStatesPosteriorProbabilities(probs, append) on the named target vector
+        let append := app == "1"
+        let buf := s.getBuf b
+        let mop : Op Float := .posteriorInto buf append
+        let (o1, a) := runOp o mop
+        let s1 := match a with | .mat m => s.putBuf b m | _ => s
+        (s1.put k o1, showAnsRows a,
+          both (postIntoVerdict o impl buf append)
+            (match impl with
+             | some i => if isExc i || o.stale then "-" else
+                 if " ".intercalate i == showAnsRows (specOf o mop) then "ok" else "FAIL:history_independent"
+             | none => "-"))
       | "post1", [site] =>
         match nat? site with
         | none => (s, "bad-op", "-")
         | some i =>
           if i ≥ o.tab.T then (s, "bad-site", "-") else
-          match o.core with
-          | .log g =>
-            -- getHiddenStatesPosteriorProbabilitiesForASite of the log-sum class has its own iterator logic
-            let (o1, _) := runOp o .posterior
-            match o1.core with
-            | .log g1 =>
-              let row := logPostRow (g1.fw.logLik[i]?.getD []) (g1.back[i]?.getD []) g1.fw.partials[logPostIdx1 i g.bps]?
-              (s.put k o1, match row with | some r => hxs r | none => "ub", postVerdict o impl (some [i]))
-            | _ => (s, "bad-op", "-")
-          | _ =>
-            let (o1, a) := runOp o .posterior
-            let out := match a with | .mat m => hxs (rowsOf m i).flatten | _ => showAns a
-            (s.put k o1, out, postVerdict o impl (some [i]))
+          let mop : Op Float := .posteriorSite i
+          let (o1, a) := runOp o mop
+          (s.put k o1, showAns a, both (postVerdict o impl (some [i]))
+            (match impl with | some im => if isExc im then "-" else histCheck o im (specOf o mop) | none => "-"))
       | "sl", [site] =>
         match nat? site with
         | none => (s, "bad-op", "-")
         | some i =>
           if i ≥ o.tab.T then (s, "bad-site", "-") else
-          let t := o.tab.model
-          let e : Emis Float := if i == 0 then t.e0 else (t.es[i - 1]?).getD t.e0
-          match o.core with
-          | .log g =>
-            let (o1, _) := runOp o .posterior
-            match o1.core with
-            | .log g1 =>
-              let row := logPostRow (g1.fw.logLik[i]?.getD []) (g1.back[i]?.getD []) g1.fw.partials[logPostIdx1 i g.bps]?
-              (s.put k o1, match row with | some r => hx (siteLik t.p r e) | none => "ub", siteVerdict o impl (some [i]))
-            | _ => (s, "bad-op", "-")
-          | _ =>
-            let (o1, a) := runOp o .posterior
-            let out := match a with | .mat m => (match m[i]? with | some r => hx (siteLik t.p r e) | none => "bad-site") | _ => showAns a
-            (s.put k o1, out, siteVerdict o impl (some [i]))
+          let mop : Op Float := .siteLik i
+          let (o1, a) := runOp o mop
+          (s.put k o1, showAns a, both (siteVerdict o impl (some [i]))
+            (match impl with | some im => if isExc im then "-" else histCheck o im (specOf o mop) | none => "-"))
       | "sls", [] =>
-        let t := o.tab.model
-        let (o1, a) := runOp o .posterior
-        let out := match a with | .mat m => hxs ((m.zip (t.e0 :: t.es)).map (fun (r, e) => siteLik t.p r e)) | _ => showAns a
-        (s.put k o1, out, siteVerdict o impl none)
+        let mop : Op Float := .siteLiks
+        let (o1, a) := runOp o mop
+        (s.put k o1, showAns a, both (siteVerdict o impl none)
+          (match impl with | some im => if isExc im then "-" else histCheck o im (specOf o mop) | none => "-"))
       | dop, [var] =>
         if dop != "d1" && dop != "d2" then (s, "bad-op", "-") else
         let mop : Op Float := if dop == "d1" then .d1 var else .d2 var
